@@ -222,6 +222,19 @@ def correspond(ctx, scale):
                 if not close(losses[..., k].sum(), want):
                     fail('rvq:per-layer-loss', f'ResidualVQ layer {k}: reported {float(losses[..., k].sum()):.6g} != commitment_weight * mse(residual, code) = {want:.6g}', dict(layer=k))
                 r = r - codes[k]
+    # ------------------------------------------------------------------ in-place codebook optimiser with a LARGE step: the reported loss is commitment_weight x
+    # mse(input, codebook[returned indices]) for the codebook the call ends with (index, vector and loss refer to one codebook)
+    from vlib import callzoo as _cz
+    try:
+        for kw_i, x_i, out_i, idx_i, loss_i, com_i, cb_i in _cz.inplace_big_step_cases(torch, rng, 4 if not ctx.thorough else 12):
+            want_c = float(((cb_i[idx_i.reshape(-1)].reshape(x_i.shape) - x_i) ** 2).double().mean())
+            ev += 1
+            dist['inplace_big_step_losses'] = dist.get('inplace_big_step_losses', 0) + 1
+            if not close(com_i, want_c, 1e-4) or not close(loss_i, kw_i['commitment_weight'] * want_c, 1e-4):
+                fail('vq-inplace-big-step:loss', f'VectorQuantize(in-place optimiser, large step): reported commitment {float(com_i):.6g} / loss {float(loss_i):.6g} != mse(input, codebook[indices]) = {want_c:.6g} '
+                     f'x weight {kw_i["commitment_weight"]}', dict(kind='inplace-big-step'))
+    except Exception as ex:
+        fail(f'vq-inplace-big-step:exception:{type(ex).__name__}', repr(ex), dict(kind='inplace-big-step'))
     # ------------------------------------------------------------------ SimVQ / ResidualSimVQ
     for ci in range((6 if not ctx.thorough else 40) * scale):
         w = [0.25, 1.0, 0.0][ci % 3]
